@@ -109,11 +109,14 @@ def run_case(mapping, program, chunksize, table, mode, tid, withexit=False, time
 
     def factory(command, **kw):
         kw.pop('cwd', None); kw.pop('env', None)
+        # everything run() hands to spawn() reaches the child object (a search window or maxread run() picks on
+        # its own is run()'s behaviour and must show in the trace); the caller of run() asked for no window
         child = DialogueChild(program, (lambda n: min(n, chunksize)), mapping, raw_events,
                               timeout=kw.get('timeout', 30), maxread=kw.get('maxread', 2000), logfile=kw.get('logfile'),
+                              searchwindowsize=kw.get('searchwindowsize'),
                               encoding=kw.get('encoding'), codec_errors=kw.get('codec_errors', 'strict'))
         rec = Recorder(child, mapping)
-        rec.annot = {'pats': [p for p, r in table]} if table is not None else {'pats': []}
+        rec.annot = {'pats': [p for p, r in table] if table is not None else [], 'W': 0}
         holder['child'], holder['rec'] = child, rec
         # interleave send events into the recorder's stream
         orig_send = child.send
